@@ -180,4 +180,54 @@ theorem C16_render_cells (sh : N → String) (hsh : Function.Injective sh) (d : 
     rw [hx]
     exact C16_cellOK_of_pos sh hsh d n t' j hd.one hnd (by omega)
 
+/-- **the driver's checker decides `C16_Holds`** (unique keys per cycle record are needed, see the file header) -/
+theorem checkC16_iff (sh : N → String) (hsh : Function.Injective sh) (d : List (Cycle N)) (n : Nat)
+    (tbl : List (List String)) (hnd : ∀ c ∈ d, (AMap.keys c).Nodup) :
+    checkC16 sh d n tbl = none ↔ C16_Holds sh d n tbl := by
+  unfold checkC16 C16_Holds
+  by_cases hlen : tbl.length = n + 1
+  case neg =>
+    have : (tbl.length != n + 1) = true := by simpa using hlen
+    simp only [this, if_true, reduceCtorEq, false_iff]
+    exact fun h => hlen h.1
+  have hlen' : (tbl.length != n + 1) = false := by simpa using hlen
+  by_cases hhead : tbl[0]? = some ("" :: (List.range (lastBusy d)).map (fun t => toString (t + 1)))
+  case neg =>
+    have : (tbl[0]? != some ("" :: (List.range (lastBusy d)).map (fun t => toString (t + 1)))) = true := by
+      rw [bne_iff_ne]; exact hhead
+    simp only [hlen', this, if_true, Bool.false_eq_true, if_false, reduceCtorEq, false_iff]
+    exact fun h => hhead h.2.1
+  have hhead' : (tbl[0]? != some ("" :: (List.range (lastBusy d)).map (fun t => toString (t + 1)))) = false := by
+    rw [bne_eq_false_iff_eq]; exact hhead
+  simp only [hlen', hhead', Bool.false_eq_true, if_false]
+  rw [checkRows_none_iff]
+  obtain ⟨hw1, hw2⟩ := foldl_max_ge tbl (d.length + 1)
+  generalize tbl.foldl (fun m r => max m r.length) (d.length + 1) = width at hw1 hw2 ⊢
+  constructor
+  · intro h
+    refine ⟨hlen, hhead, fun k hk1 hkn => (h k hk1 (by omega)).1, fun k t hk1 hkn ht1 => ?_⟩
+    by_cases htw : t < 1 + width
+    · exact (cellBad_iff sh hsh d _ (t - 1) (k - 1) hnd).1 ((h k hk1 (by omega)).2 t ht1 htw)
+    · apply (cellBad_iff sh hsh d _ (t - 1) (k - 1) hnd).1
+      have hd : d[t - 1]? = none := List.getElem?_eq_none (by omega)
+      have hx : cell tbl k t = "" := by
+        unfold cell
+        cases hr : tbl[k]? with
+        | none => rfl
+        | some r =>
+          have : r[t]? = none := List.getElem?_eq_none (by
+            have := hw2 r (List.mem_of_getElem? hr); omega)
+          simp [this]
+      simp [hostStrsAt, hd, hx, cellBad]
+  · rintro ⟨_, _, hkeys, hcells⟩ k' h1 h2
+    exact ⟨hkeys k' h1 (by omega), fun t' ht1 _ =>
+      (cellBad_iff sh hsh d _ (t' - 1) (k' - 1) hnd).2 (hcells k' t' h1 (by omega) ht1)⟩
+
+/-- the model's table passes the checker -/
+theorem checkC16_model (sh : N → String) (hsh : Function.Injective sh) (d : List (Cycle N)) (n : Nat)
+    (hok : diagramOK d n = true) (hnd : ∀ c ∈ d, (AMap.keys c).Nodup) :
+    ∃ tbl, Cli.render sh d n = .ok tbl ∧ checkC16 sh d n tbl = none := by
+  obtain ⟨tbl, h1, h2⟩ := C16_render_cells sh hsh d n hok hnd
+  exact ⟨tbl, h1, (checkC16_iff sh hsh d n tbl hnd).2 h2⟩
+
 end ProcSim
